@@ -72,6 +72,8 @@ func init() {
 	})
 }
 
+type heldBatch struct{ got, want []int }
+
 // geometry mirror, for coverage measurement only
 type ringGeo struct {
 	head, tail, mod int64
@@ -102,6 +104,7 @@ func c14Seq(c *caseCtx) (res caseResult) {
 	rb := ringbuffer.New[int](capa)
 	geo := &ringGeo{mod: capa}
 	var model []int
+	var held []heldBatch
 	next := 1
 	var script []string
 	log := func(s string) {
@@ -169,7 +172,22 @@ func c14Seq(c *caseCtx) (res caseResult) {
 		}
 		model = model[k:]
 		geo.pop(int64(k))
+		// the batch handed out belongs to the caller: it is kept and compared again later
+		held = append(held, heldBatch{got: items, want: append([]int(nil), exp...)})
+		if len(held) > 6 {
+			held = held[1:]
+		}
 		return "", true
+	}
+	recheckHeld := func() string {
+		for _, h := range held {
+			for i := range h.want {
+				if h.got[i] != h.want[i] {
+					return fmt.Sprintf("a batch returned by PopN earlier (%v) changed under the caller's hands to %v after further pushes: popped elements must stay popped", h.want, h.got)
+				}
+			}
+		}
+		return ""
 	}
 	// directed prefix: put the head at a chosen position before growth
 	if c.n%3 != 2 {
@@ -224,6 +242,9 @@ func c14Seq(c *caseCtx) (res caseResult) {
 		}
 		if !checkLen() {
 			return fail("Len()=%d, model has %d elements", rb.Len(), len(model))
+		}
+		if msg := recheckHeld(); msg != "" {
+			return fail("%s", msg)
 		}
 		if rb.Len() < 0 {
 			return fail("Len() negative: %d", rb.Len())
